@@ -628,10 +628,13 @@ class Backend(ABC):
                 )
             case SigmaQueryExpression():
                 return self.convert_condition_query_expr(cond, state)
-            case _:  # pragma: no cover
-                raise TypeError(
-                    "Unexpected value type class in condition parse tree: "
-                    + cond.value.__class__.__name__
+            case _:
+                # Value types that are valid in a rule but can't be converted without a field name
+                # (e.g. null, compare and field reference values or value expansions). This is an
+                # error of the rule that must be collectable as such, not a programming error.
+                raise SigmaValueError(
+                    f"Values of type {cond.value.__class__.__name__} can't appear as standalone "
+                    "value without a field name."
                 )
 
     def convert_condition(
